@@ -4,6 +4,7 @@ import Proofs.SkipWalk
 import Proofs.SkipLinks
 import Proofs.SkipMLP
 import Proofs.SkipTyped
+import Proofs.SkipReshape
 
 /-!
 # C16 — skip connections combine source and target inputs as configured
@@ -889,5 +890,128 @@ theorem typed_layers_any_skips_network_gradient {K : Type} [Fintype K] [Decidabl
       n.backward (enc (SkipTyped.slotAt ds ds.length) g₀) t = .ok (ws, bs, gs) ∧
       gs.getLast? = some (enc (SkipTyped.slotAt ds 0) γ) ∧ IsGrad (ℓ ∘ F) x₀ γ :=
   typed_skip_network_gradient enc n ds tbl hl hc hacc hlb hkeys hbd hw hfit x₀ ℓ g₀
+
+open LayerChain SkipWalk SkipNet SkipReshape VJP ChainLinks DenseStack DenseBridge ConvVJP ConvBridge ConvNet Flat3 in
+/-- **a connection from a spatial position into a flat one** ("also when one is flat and the other spatial with the
+    same element count"): a shape-preserving convolution `l` on `c × h × w` whose output is flattened, a square dense
+    layer `(a, W, b)` that is the target of a connection from the convolution's input (the network input, spatial),
+    then a dense stack.  `Network::skip_input` reshapes the `c × h × w` source to the flat target's shape and adds;
+    `backward` reshapes the target's processed-input gradient back to `c × h × w` and adds it to what came back through
+    the convolution.  The dense layer processes `flat (conv x) + flat x`, and the gradient handed back to the image is
+    the gradient of the objective. -/
+theorem spatial_source_into_flat_target_gradient {c h w kh kw k : ℕ} (n : Network ℝ)
+    (l : Conv ℝ) (a0 : Act) (K : V (I4 c c kh kw)) (hl0 : IsConv l a0 K h w h w) (ha0 : a0 ≠ .softmax) (hf0 : l.flatten = true)
+    (a : Act) (W : V (Fin (c * h * w) × Fin (c * h * w))) (b : Vec (c * h * w)) (ha : a ≠ .softmax) (hw : 0 < w)
+    (s : Stack (c * h * w) k) (hv : s.Valid)
+    (hl : n.layers = [.conv l, .dense (denseLayer a W b)] ++ s.layers) (hc : n.connect = [(1, 0)])
+    (hacc : n.skipaccumulation = .add) (hlb : n.loopbacks = [])
+    (x : V (I3 c h w)) (ℓ : Vec k → ℝ) (g : Vec k) :
+    let F := fun z : V (I3 c h w) => s.net.fwd (denseFn (Act.f a) W b (flat (convFn l a0 K h w h w z) + flat z))
+    (∀ i, NoKink a0 (pre l K h w h w x i)) →
+    (∀ i, NoKink a (densePre W b (flat (convFn l a0 K h w h w x) + flat x) i)) →
+    s.NoKinks (denseFn (Act.f a) W b (flat (convFn l a0 K h w h w x) + flat x)) →
+    IsGrad ℓ (F x) g →
+    ∃ t ws bs gs γ,
+      n.forward (T3 x) = .ok t ∧ t.act.getLast? = some (vecT (F x)) ∧
+      n.backward (vecT g) t = .ok (ws, bs, gs) ∧ gs.getLast? = some (T3 γ) ∧ IsGrad (ℓ ∘ F) x γ := by
+  intro F hk0 hk1 hks hg
+  obtain ⟨hcp, _, _, hhp, _⟩ := hl0.pos
+  have hm : 0 < c * h * w := Nat.mul_pos (Nat.mul_pos hcp hhp) hw
+  let em : Nat → Enc (iVec (c * h * w)) := fun j => if j = 0 then eVolFlat c h w else eVec (c * h * w)
+  let body : List (Link (iVec (c * h * w))) := [convFlatLink (h := h) (w := w) (l, a0, K), denseLink (a, W, b)]
+  let head : Chain (iVec (c * h * w)) (em 0) (iVec (c * h * w)) (em 0) := Chain.nil _ _
+  let tail : Chain (iVec (c * h * w)) (em body.length) (iVec k) (eVec k) := stackChain s
+  have hnet : IsDagNet (em := em) head body [(1, 0)] tail n := by
+    refine ⟨?_, ?_, hacc, hlb, by decide, by simp [body]⟩
+    · rw [hl]; simp [LayerChain.layers, head, tail, body, convFlatLink, denseLink, stackChain_layers]
+    · rw [hc]; simp [LayerChain.layers, head, shift]
+  have hcomp : ∀ t s', Assoc.find? [((1 : Nat), (0 : Nat))] t = some s' → Compat (em t) (em s') := by
+    intro t s' hts
+    simp only [Assoc.find?] at hts
+    split at hts
+    · rename_i h1
+      simp only [Option.some.injEq] at hts
+      subst h1; subst hts
+      exact compat_flat_vol hcp hhp
+    · cases hts
+  have hS0 : (dagNet body [(1, 0)]).S 0 = none := rfl
+  have hS1 : (dagNet body [(1, 0)]).S 1 = some 0 := rfl
+  have hf0' : (dagNet body [(1, 0)]).f 0 = fun u => flat (convFn l a0 K h w h w (unflat u)) := rfl
+  have hf1' : (dagNet body [(1, 0)]).f 1 = denseFn (Act.f a) W b := rfl
+  have hvals : ∀ z : V (I3 c h w),
+      SkipDag.P (dagNet body [(1, 0)]) 0 (flat z) = flat z ∧
+      SkipDag.P (dagNet body [(1, 0)]) 1 (flat z) = flat (convFn l a0 K h w h w z) + flat z ∧
+      SkipDag.U (dagNet body [(1, 0)]) 2 (flat z) = denseFn (Act.f a) W b (flat (convFn l a0 K h w h w z) + flat z) := by
+    intro z
+    have hU0 : SkipDag.U (dagNet body [(1, 0)]) 0 (flat z) = flat z := by rw [SkipDag.U]
+    have hP0 : SkipDag.P (dagNet body [(1, 0)]) 0 (flat z) = flat z := by rw [P_of_none _ _ _ hS0, hU0]
+    have hU1 : SkipDag.U (dagNet body [(1, 0)]) 1 (flat z) = flat (convFn l a0 K h w h w z) := by
+      rw [SkipDag.U_succ, hP0, hf0']
+      simp only [unflat_flat]
+    have hP1 : SkipDag.P (dagNet body [(1, 0)]) 1 (flat z) = flat (convFn l a0 K h w h w z) + flat z := by
+      rw [P_of_some _ _ _ _ hS1 (Nat.zero_le _), hU1, hU0]
+    refine ⟨hP0, hP1, ?_⟩
+    rw [SkipDag.U_succ, hP1, hf1']
+  set u0 : Vec (c * h * w) := flat x with hu0
+  obtain ⟨hP0, hP1, hU2⟩ := hvals x
+  rw [← hu0] at hP0 hP1 hU2
+  have hFz : ∀ z, dagFn (em := em) head body [(1, 0)] tail (flat z) = F z := by
+    intro z
+    show (gnet (stackChain s)).fwd (SkipDag.U (dagNet body [(1, 0)]) 2 (flat z)) = _
+    rw [stack_gnet_fwd, (hvals z).2.2]
+  have hFx : dagFn (em := em) head body [(1, 0)] tail u0 = F x := hFz x
+  have hreal : ∀ j (lk : Link (iVec (c * h * w))), body[j]? = some lk →
+      lk.Real (em j) (em (j + 1)) (SkipDag.P (dagNet body [(1, 0)]) j ((gnet head).fwd u0)) := by
+    intro j lk hlk
+    match j, hlk with
+    | 0, hlk =>
+      simp only [body, List.getElem?_cons_zero, Option.some.injEq] at hlk
+      subst hlk
+      exact convFlatLink_real (l, a0, K) hl0 ha0 hf0 _
+    | 1, hlk =>
+      simp only [body, List.getElem?_cons_succ, List.getElem?_cons_zero, Option.some.injEq] at hlk
+      subst hlk
+      exact denseLink_real (a, W, b) ha hm _
+    | j + 2, hlk => simp [body] at hlk
+  have hvjp : ∀ j (lk : Link (iVec (c * h * w))), body[j]? = some lk →
+      IsVJP lk.f (SkipDag.P (dagNet body [(1, 0)]) j ((gnet head).fwd u0)) (lk.b (SkipDag.P (dagNet body [(1, 0)]) j ((gnet head).fwd u0))) := by
+    intro j lk hlk
+    match j, hlk with
+    | 0, hlk =>
+      simp only [body, List.getElem?_cons_zero, Option.some.injEq] at hlk
+      subst hlk
+      have : (gnet head).fwd u0 = u0 := rfl
+      rw [this, hP0]
+      exact convFlatLink_vjp (l, a0, K) hl0 ha0 u0 (by simpa [hu0, unflat_flat] using hk0)
+    | 1, hlk =>
+      simp only [body, List.getElem?_cons_succ, List.getElem?_cons_zero, Option.some.injEq] at hlk
+      subst hlk
+      have : (gnet head).fwd u0 = u0 := rfl
+      rw [this, hP1]
+      exact denseLink_vjp (a, W, b) ha _ hk1
+    | j + 2, hlk => simp [body] at hlk
+  have htr : Real tail (SkipDag.U (dagNet body [(1, 0)]) body.length ((gnet head).fwd u0)) := by
+    show Real (stackChain s) (SkipDag.U (dagNet body [(1, 0)]) 2 u0)
+    exact stackChain_real s _ hv
+  have hto : (gnet tail).Ok (SkipDag.U (dagNet body [(1, 0)]) body.length ((gnet head).fwd u0)) := by
+    show (gnet (stackChain s)).Ok (SkipDag.U (dagNet body [(1, 0)]) 2 u0)
+    rw [hU2]
+    exact stackChain_ok s _ hv hks
+  obtain ⟨t, ws, bs, gs, γ, h1, h2, h3, h4, h5, _⟩ :=
+    dag_network_gradient (em := em) head body [(1, 0)] tail n hnet hcomp u0 trivial hreal htr trivial hvjp hto ℓ g
+      (by rw [hFx]; exact hg)
+  have hin : em 0 u0 = T3 x := by
+    show eVolFlat c h w (flat x) = T3 x
+    simp only [eVolFlat, unflat_flat]
+  refine ⟨t, ws, bs, gs, unflat γ, ?_, ?_, h3, ?_, ?_⟩
+  · rw [← hin]; exact h1
+  · rw [h2, hFx]; rfl
+  · rw [h4]; rfl
+  · have h6 := IsGrad.comp_vjp (flat_isVJP (c := c) (h := h) (w := w) x) h5
+    have : (ℓ ∘ dagFn (em := em) head body [(1, 0)] tail) ∘ flat = ℓ ∘ F := by
+      funext z
+      simp only [Function.comp_apply, hFz]
+    rw [← this]
+    exact h6
 
 end C16
